@@ -10,6 +10,7 @@
 use crate::core::*;
 use crate::faults;
 use crate::rng::Rng;
+use crate::scen_digest::ref_hash;
 use crate::scen_txhist::{varint, MIn, MOut, Model};
 use bsv::*;
 use serde_json::{json, Value};
@@ -416,6 +417,19 @@ impl ArtefactMedium {
                 let opts = ["OP_DUP OP_HASH160 OP_PUBKEYHASH OP_EQUALVERIFY OP_CHECKSIG", "OP_SIG OP_PUBKEY", "OP_RETURN OP_DATA", "OP_DATA=20 OP_DATA>=1 OP_DATA<=75 OP_DATA>3 OP_DATA<9", "0 1 16 17 OP_0", "OP_HASH160 0011223344 OP_EQUAL"];
                 (rng.pick(&opts).as_bytes().to_vec(), vec![])
             }
+            "wif" if rng.chance(1, 4) => {
+                // correctly checksummed base58check payloads of the wrong shape (addresses, short or unusable keys)
+                let mut p: Vec<u8> = vec![*rng.pick(&[0x80u8, 0x00, 0xef])];
+                let n = *rng.pick(&[0usize, 1, 20, 31, 32, 33, 34, 40]);
+                p.extend(match rng.below(3) {
+                    0 => vec![0u8; n],
+                    1 => vec![0xff; n],
+                    _ => rng.bytes(n),
+                });
+                let check = ref_hash("sha256d", &p);
+                p.extend_from_slice(&check[..4]);
+                (bs58::encode(p).into_string().into_bytes(), vec![])
+            }
             "wif" => (rand_key(rng).to_wif().unwrap_or_default().into_bytes(), vec![]),
             "privkey_hex" | "privkey_bytes" => (rand_key(rng).to_bytes(), vec![]),
             "pubkey_hex" | "pubkey_bytes" | "json_pubkey" | "pubkey_decompress" | "pubkey_hex_compress" => {
@@ -425,6 +439,41 @@ impl ArtefactMedium {
                 } else {
                     (pk.to_bytes().unwrap_or_default(), vec![])
                 }
+            }
+            "xprv" | "xpub" if rng.chance(1, 3) => {
+                // structurally well-formed extended key whose key material is unusable (zero, group order, all ones,
+                // off-curve point), with a full / partial / missing checksum: drives the decoders' error paths
+                let mut p: Vec<u8> = if kind == "xprv" { vec![0x04, 0x88, 0xad, 0xe4] } else { vec![0x04, 0x88, 0xb2, 0x1e] };
+                p.push(rng.below(256) as u8);
+                p.extend(rng.bytes(4));
+                p.extend(rng.bytes(4));
+                p.extend(rng.bytes(32));
+                let bad: Vec<u8> = match rng.below(5) {
+                    0 => vec![0u8; 32],
+                    1 => hex::decode("fffffffffffffffffffffffffffffffebaaedce6af48a03bbfd25e8cd0364141").unwrap(),
+                    2 => vec![0xff; 32],
+                    3 => {
+                        let mut b = rng.bytes(32);
+                        b[0] &= 0x7f;
+                        b
+                    }
+                    _ => hex::decode("fffffffffffffffffffffffffffffffebaaedce6af48a03bbfd25e8cd0364140").unwrap(),
+                };
+                if kind == "xprv" {
+                    p.push(0);
+                    p.extend(bad);
+                } else {
+                    p.push(*rng.pick(&[0x02u8, 0x03, 0x04, 0x00]));
+                    p.extend(bad);
+                }
+                let check = ref_hash("sha256d", &p);
+                let n_check = *rng.pick(&[4usize, 4, 3, 1, 0]);
+                p.extend_from_slice(&check[..n_check]);
+                if rng.chance(1, 4) {
+                    let cut = rng.range(70, p.len() as u64) as usize;
+                    p.truncate(cut);
+                }
+                (bs58::encode(p).into_string().into_bytes(), vec![])
             }
             "xprv" => {
                 let x = ExtendedPrivateKey::from_seed(&rng.bytes(32)).unwrap();
